@@ -125,9 +125,17 @@ def noUnusedFragments (d : Doc) : Prop :=
 /-- rules of the model for which no `rule_*_iff` theorem exists yet: their verdict equivalence and
     invariance rest on the correspondence check (harness/corr/C06_model.py) -/
 def Unproved : List String :=
-  ["FragmentsOnCompositeTypesChecker", "NoUnusedFragmentsChecker", "PossibleFragmentSpreadsChecker",
+  ["NoUnusedFragmentsChecker", "PossibleFragmentSpreadsChecker",
    "NoFragmentCyclesChecker", "UniqueVariableNamesChecker", "NoUndefinedVariablesChecker",
    "NoUnusedVariablesChecker", "KnownDirectivesChecker", "ValuesOfCorrectTypeChecker",
    "VariablesInAllowedPositionChecker", "OverlappingFieldsCanBeMergedChecker", "UniqueInputFieldNamesChecker"]
 
+end PyGql.Validate.Spec
+
+namespace PyGql.Validate.Spec
+open PyGql PyGql.Validate
+/-- **5.5.1.2 / 5.5.1.3 Fragment type conditions exist and are composite types** -/
+def fragmentsOnCompositeTypes (s : SchemaD) (d : Doc) : Prop :=
+  (∀ n ∈ nodes d, ∀ on dirs, n = Node.inline (some on) dirs → isComposite s on = true) ∧
+  (∀ n ∈ nodes d, ∀ name on dirs, n = Node.fragmentDef name on dirs → isComposite s on = true)
 end PyGql.Validate.Spec
